@@ -217,6 +217,11 @@ func (k Keeper) IterateBondedValidatorsByPower(
 		// because it is applied at the end of an epoch, whereas that from the operator
 		// module is more recent.
 		val.Tokens = sdk.TokensFromConsensusPower(v.Power, sdk.DefaultPowerReduction)
+		// keep the shares balanced with the tokens set above. The shares filled in by the operator
+		// module follow the operator's *current* USD value, which can be zero (opted out and
+		// undelegated within the epoch) while the validator is still in the set with v.Power >= 1;
+		// the gov tally computes shares * tokens / shares and would divide by zero in EndBlock.
+		val.DelegatorShares = val.Tokens.ToLegacyDec()
 		// since the validator object was fetched from this module, we should set it to bonded.
 		val.Status = stakingtypes.Bonded
 		// items passed are:
@@ -228,17 +233,21 @@ func (k Keeper) IterateBondedValidatorsByPower(
 }
 
 // TotalBondedTokens is an implementation of the staking interface expected by the SDK's
-// gov module. This is not implemented intentionally, since the tokens securing this chain
-// are many and span across multiple chains and assets.
-func (k Keeper) TotalBondedTokens(sdk.Context) math.Int {
-	panic("unimplemented on this keeper")
+// gov module, which uses it as the denominator of the quorum when it tallies a proposal in its
+// EndBlocker. The tokens securing this chain are many and span multiple chains and assets, so
+// the total is expressed the same way IterateBondedValidatorsByPower expresses each validator's
+// tokens: the vote power applied at the last epoch, times the power reduction. The sum of the
+// validators' tokens reported there equals this total.
+func (k Keeper) TotalBondedTokens(ctx sdk.Context) math.Int {
+	return k.GetLastTotalPower(ctx).Mul(sdk.DefaultPowerReduction)
 }
 
 // IterateDelegations is an implementation of the staking interface expected by the SDK's
-// gov module. See note above to understand why this is not implemented.
+// gov module, which uses it to let a delegator's vote override that of its validator. This
+// module tracks no per-delegator stake (delegations live in x/delegation, in many assets), so
+// there is nothing to iterate: only the validators' own votes carry weight in a tally.
 func (k Keeper) IterateDelegations(
 	sdk.Context, sdk.AccAddress,
 	func(int64, stakingtypes.DelegationI) bool,
 ) {
-	panic("unimplemented on this keeper")
 }
